@@ -62,6 +62,29 @@ def run(ctx):
                                "correspondence": "ZwVerif.Model.Dwarf vs forest description"}, found_input=False)
             else:
                 ok += 1
+        # compiler-produced objects, cross-checked against an independent dumper (llvm-dwarfdump)
+        cc_ok = cc_dies = 0
+        for cpath, label in dwcorr.compiler_objects(fs.dir, 6 if ctx.tier == "quick" else None):
+            want = dwcorr.llvm_dies(cpath)
+            if want is None:
+                continue
+            recs, crashes = fs.query(cpath, [dwcorr.RAW_QUERY])
+            if crashes or recs[0].err:
+                ctx.violation("the library failed on an object just compiled (%s): %s" % (label, recs[0].err or crashes),
+                              {"stream": "C02-compiler", "input": fs.inp(None, cpath, dwcorr.RAW_QUERY)})
+                continue
+            got = [dwcorr.normalize(r) for r in recs[0].res]
+            cc_dies += len(want)
+            if got != want:
+                i = next((i for i, (a, b) in enumerate(zip(got, want)) if a != b), min(len(got), len(want)))
+                ctx.violation("%s: raw DIE #%d: library reports %s, llvm-dwarfdump decodes %s (library lists %d DIEs, llvm %d)"
+                              % (label, i, got[i] if i < len(got) else None, want[i] if i < len(want) else None, len(got), len(want)),
+                              {"stream": "C02-compiler", "input": fs.inp(None, cpath, dwcorr.RAW_QUERY), "got": got[i] if i < len(got) else None,
+                               "expected": want[i] if i < len(want) else None})
+            else:
+                cc_ok += 1
+        ctx.cov["compiler_objects_agreeing_with_llvm_dwarfdump"] = cc_ok
+        ctx.cov["compiler_object_dies"] = cc_dies
         # the repository's sample binaries: raw listing must be self-consistent (children's parent is the DIE; no duplicates)
         samples = sorted(glob.glob(os.path.join(common.REPO, "tests", "*.o")) + [os.path.join(common.REPO, "tests", f)
                          for f in ("a1.out", "twocus", "dwz-partial", "dwz-partial2-1", "haschildren_childless", "empty")])
@@ -83,7 +106,7 @@ def run(ctx):
                 s_ok += 1
     finally:
         fs.cleanup()
-    ctx.cov["evaluations"] = dies
+    ctx.cov["evaluations"] = dies + ctx.cov.get("compiler_object_dies", 0)
     ctx.cov["distinct_nontrivial"] = ok
     ctx.cov["forests"] = n
     ctx.cov["forests_by_unit_count"] = shapes
@@ -92,7 +115,8 @@ def run(ctx):
                        "children, nesting to depth 4, sibling attributes, all common forms) whose bytes and offsets are laid out by the "
                        "generator: `raw entry` (offset, tag, parent, children flag, children, (attribute, form) list in stored order), "
                        "`raw unit`, positions — compared record by record with the description and with the Lean forest model; "
-                       "evaluations = DIEs compared; plus self-consistency of the repository's sample binaries")
+                       "evaluations = DIEs compared; objects compiled on the spot by gcc / g++ (DWARF 2-5, -O0..-O2, C and C++) compared DIE by DIE "
+                       "with llvm-dwarfdump's decoding; plus self-consistency of the repository's sample binaries")
     ctx.sample({"first records": dwcorr.oracle_raw(desc)[:3]})
     ctx.assumptions += ["elfutils (libdw) is a parameter: the forest model is what dwarf_child / dwarf_siblingof / dwarf_getattrs "
                         "report; validated here against files whose content is known by construction"]
